@@ -75,6 +75,31 @@ class Ctx:
         """Model-check; a violated invariant is a machinery failure (the spec is wrong or the
         design is) unless expect_violation names the invariant(s) a *negative* config must trip."""
         res = tlc.run(module, cfg, **kw)
+        return self._account(res, module, cfg, expect_violation, count)
+
+    def mc_batch(self, module, jobs, *, parallel=4, workers=4, **kw):
+        """Model-check several generated configurations of one module concurrently.
+        jobs: [(name, cfg_text, expect_violation | None)]; returns {name: TlcResult} (accounting as in mc())."""
+        import shutil
+        import tempfile
+        from concurrent.futures import ThreadPoolExecutor
+        d = tempfile.mkdtemp(prefix="pvcfg_")
+        try:
+            paths = {}
+            for name, text, _ in jobs:
+                paths[name] = os.path.join(d, name + ".cfg")
+                with open(paths[name], "w") as f:
+                    f.write(text)
+            with ThreadPoolExecutor(max_workers=parallel) as ex:
+                futs = {name: ex.submit(tlc.run, module, paths[name], workers=workers, **kw) for name, _, _ in jobs}
+                out = {}
+                for name, _, expect in jobs:
+                    out[name] = self._account(futs[name].result(), module, paths[name], expect, True)
+            return out
+        finally:
+            shutil.rmtree(d, ignore_errors=True)
+
+    def _account(self, res, module, cfg, expect_violation, count):
         d = res.as_dict()
         if expect_violation:
             hit = [v for v in res.violated if v in expect_violation] if isinstance(expect_violation, (list, tuple, set)) else res.violated
@@ -105,6 +130,12 @@ class Ctx:
     # ---------------------------------------------------------------- violations
     def violation(self, key: str, what: str, replay: dict):
         """An API-observable contradiction between implementation and specification."""
+        if getattr(self, "_collected", None) is not None:       # worker sub-context: the parent records and reports
+            if len(self._collected) < 60:
+                self._collected.append((key, what, replay))
+            else:
+                self._collected.append((key, what[:200], None))
+            return
         for k in self._known:
             if k.get("status") == "open" and k.get("key") == key:
                 n = self.known_hits.get(key, 0)
@@ -136,6 +167,59 @@ class Ctx:
             return docs
         self.note(f"{len(docs)} {what} emitted by TLC, seeded sample of {budget} replayed")
         return self.rng.sample(docs, budget)
+
+    # ---------------------------------------------------------------- parallel replay
+    def parallel(self, items, fn, chunk=250, workers=None):
+        """fn(ctx, i, item) for every item (i = 0-based position) in forked worker processes. Items are cut into fixed-size
+        chunks (independent of the number of workers, so results do not depend on the machine); each chunk runs in order in one
+        process with a sub-context whose counters, samples and violations are merged back in chunk order. Calls inside one
+        chunk share the interpreter, so history effects between consecutive replays stay observable."""
+        items = list(items)
+        if not items:
+            return
+        workers = workers or int(os.environ.get("PV_WORKERS", "0") or 0) or min(14, os.cpu_count() or 1)
+        chunks = [(c, items[c:c + chunk]) for c in range(0, len(items), chunk)]
+        if workers <= 1 or len(chunks) == 1:
+            for i, it in enumerate(items):
+                fn(self, i, it)
+            return
+        import multiprocessing as mp
+        global _PAR
+        _PAR = (self, fn, chunks)
+        try:
+            with mp.get_context("fork").Pool(min(workers, len(chunks))) as pool:
+                results = pool.map(_par_chunk, range(len(chunks)), chunksize=1)
+        finally:
+            _PAR = None
+        for r in results:
+            if r.get("error"):
+                raise MachineryFailure("replay worker failed:\n" + r["error"])
+            self.evaluations += r["evaluations"]
+            self.traces += r["traces"]
+            self.nontrivial.update(r["nontrivial"])
+            for smp in r["samples"]:
+                if len(self.samples) < 6:
+                    self.samples.append(smp)
+            for nt in r["notes"]:
+                if nt not in self.notes:
+                    self.notes.append(nt)
+            for k, v in r["extra"].items():
+                self.extra[k] = self.extra.get(k, 0) + v
+            for key, what, replay in r["violations"]:
+                self.violation(key, what, replay)
+
+    def _sub(self, index):
+        c = Ctx.__new__(Ctx)
+        c.__dict__.update(self.__dict__)
+        c.rng = random.Random(self.seed * 7919 + index * 104729 + int(hashlib.sha1(self.prop.encode()).hexdigest()[:6], 16))
+        c.traces = 0
+        c.evaluations = 0
+        c.nontrivial = set()
+        c.samples = []
+        c.notes = []
+        c.extra = {}
+        c._collected = []
+        return c
 
     # ---------------------------------------------------------------- evidence
     def write_evidence(self, status="ok"):
@@ -173,6 +257,23 @@ class Ctx:
             json.dump(ev, f, indent=1, default=jdefault)
         os.replace(tmp, path)
         return path
+
+
+_PAR = None
+
+
+def _par_chunk(ci):
+    parent, fn, chunks = _PAR
+    start, items = chunks[ci]
+    sub = parent._sub(ci)
+    try:
+        for k, it in enumerate(items):
+            fn(sub, start + k, it)
+    except BaseException:      # noqa: BLE001
+        return dict(error=traceback.format_exc()[-3000:])
+    return dict(evaluations=sub.evaluations, traces=sub.traces, nontrivial=list(sub.nontrivial), samples=sub.samples[:6],
+                notes=sub.notes[:20], extra={k: v for k, v in sub.extra.items() if isinstance(v, (int, float))},
+                violations=json.loads(json.dumps(sub._collected, default=jdefault)))
 
 
 def run_check(prop: str, tier: str, seed: int, fn):
